@@ -15,7 +15,21 @@ const TEXT_SWITCHING: &[&str] = &["textarea", "title", "plaintext", "script", "s
 
 fn gen_doc(rng: &mut Rng) -> (Vec<u8>, &'static str) {
     match rng.below(10) {
-        0..=5 => (wl::soup(rng, 30).bytes, "soup"),
+        0 => {
+            // dense walk through the ambiguity guard's states: select / nested templates in
+            // select / frameset, with text-mode-switching and neutral tags at every depth
+            let mut out: Vec<u8> = vec![];
+            const ITEMS: &[&str] = &[
+                "<select>", "<select>", "</select>", "<template>", "<template>", "</template>", "</template>", "<frameset>", "</frameset>", "<option>", "</option>", "<optgroup>", "<b>", "</b>",
+                "text", "<div>", "</div>", "<script>a<b</script>", "<style>x</style>", "<noframes>n</noframes>", "<textarea>t</textarea>", "<title>T</title>", "<xmp>", "<iframe>", "<noembed>",
+                "<noscript>", "<plaintext>", "<input>", "<hr>", "<keygen>", "<SELECT>", "</SeLeCt>", "<TEMPLATE>", "</template >",
+            ];
+            for _ in 0..rng.range(2, 12) {
+                out.extend(rng.pick(ITEMS).as_bytes());
+            }
+            (out, "guard")
+        }
+        1..=5 => (wl::soup(rng, 30).bytes, "soup"),
         _ => {
             // recursive well-nested foreign-content grammar inside an explicitly closed HTML skeleton
             let mut d = wl::GenDoc::default();
@@ -48,6 +62,9 @@ fn gen_doc(rng: &mut Rng) -> (Vec<u8>, &'static str) {
 fn ambiguity_necessary_condition(nonstrict: &[Tok]) -> bool {
     // a text-mode-switching start tag after an unclosed <select> or after any <frameset>
     let mut select_depth = 0usize;
+    // <template> elements open inside the innermost open <select>: the "in template" insertion
+    // mode ignores </select>, so the select stays open until the templates are closed
+    let mut templates_in_select = 0usize;
     let mut frameset_seen = false;
     for t in nonstrict {
         match t {
@@ -58,13 +75,19 @@ fn ambiguity_necessary_condition(nonstrict: &[Tok]) -> bool {
                 if name == "select" {
                     select_depth += 1;
                 }
+                if name == "template" && select_depth > 0 {
+                    templates_in_select += 1;
+                }
                 if name == "frameset" {
                     frameset_seen = true;
                 }
             }
             Tok::End { name, .. } => {
-                if name == "select" && select_depth > 0 {
+                if name == "select" && select_depth > 0 && templates_in_select == 0 {
                     select_depth -= 1;
+                }
+                if name == "template" && templates_in_select > 0 {
+                    templates_in_select -= 1;
                 }
             }
             _ => {}
